@@ -25,6 +25,27 @@ CHECKS = {
         "level_note": "interleavings are those the Go scheduler produced on 16 cores in this run (counter histories_with_overlap), not all; porcupine timeouts are inconclusive",
         "design_ref": "3/C29",
     },
+    "C07": {
+        "level": "exploration",
+        "technique": "runtime monitoring: trace oracle over lock-step packet sequences (exhaustive up to length 3) against the real session handler in virtual time",
+        "level_text": "Every sequence of up to 3 pre-connect client packets over a 24-symbol alphabet, with authentication on and off (29k sessions), plus thousands of perturbed connect flows, is played to the real gateway handler; a linear monitor over the recorded wire trace checks that nothing is acknowledged or relayed before the broker accepted a CONNECT.",
+        "level_note": "exhaustive only for length <= 3 over the chosen alphabet; lock-step delivery (races between the two receive loops are exercised by C25/C11)",
+        "design_ref": "3/C07",
+    },
+    "C08": {
+        "level": "exploration",
+        "technique": "runtime monitoring: per-connect-exchange trace oracle over enumerated and perturbed CONNECT/AUTH/WILL* orderings",
+        "level_text": "Same sequence space as C07 (all orderings/omissions/repeats up to length 3, perturbed longer flows) x auth on/off x four gateway credential settings; the monitor compares the credentials of every MQTT CONNECT with the AUTH packets of the same exchange / the configured ones.",
+        "level_note": "credentials are compared byte-wise by an independent MQTT parser; AuthEnabled plumbing through ListenAndServe is exercised by C15's real-socket part only",
+        "design_ref": "3/C08",
+    },
+    "C09": {
+        "level": "exploration",
+        "technique": "runtime monitoring: per-connect-exchange protocol-order oracle over enumerated and perturbed sequences",
+        "level_text": "Same sequence space as C07/C08 with will/no-will CONNECTs, empty/QoS-3 will topics, keep-alive 0 and 65535 and broker CONNACK codes 0-5 and 9; the monitor checks request/response order of the will dialogue, the will fields and count of MQTT CONNECTs and the CONNACK code mapping.",
+        "level_note": "duplicate WILLTOPICREQs caused by repeated AUTHs are not judged (the property does not forbid them)",
+        "design_ref": "3/C09",
+    },
     "C18": {
         "level": "exploration",
         "crash_is_violation": True,
